@@ -158,7 +158,7 @@ static std::string mutate_ovmb(const std::string &orig, const RefFile &rf, const
     std::string s = orig;
     int nmut = 1 + (int)rng.below(3);
     for (int i = 0; i < nmut; ++i) {
-        int kind = (int)rng.below(12);
+        int kind = (int)rng.below(13);
         std::ostringstream d;
         auto field = [&](size_t off, int width, const char *name) { uint64_t v = BV[rng.below(sizeof BV / sizeof *BV)]; if (rng.chance(1, 3)) v = (uint64_t)rng.below(300); put_le(s, off, v, width); d << name << "@" << off << ":=" << v; };
         if (rf.chunks.empty()) kind = 8;
@@ -180,6 +180,9 @@ static std::string mutate_ovmb(const std::string &orig, const RefFile &rf, const
         case 8: { if (s.empty()) break; size_t o = rng.below(s.size()); s[o] = (char)(s[o] ^ (1 << rng.below(8))); d << "bit flip@" << o; break; }
         case 9: { size_t o = rng.below(s.size() + 1); size_t n = 1 + rng.below(8); std::string ins; for (size_t k = 0; k < n; ++k) ins += (char)rng.below(256); s.insert(o, ins); d << "insert " << n << "@" << o; break; }
         case 10: { if (s.empty()) break; size_t o = rng.below(s.size()); size_t n = std::min<size_t>(1 + rng.below(8), s.size() - o); s.erase(o, n); d << "delete " << n << "@" << o; break; }
+        case 11: if (c.body_len > 1 && c.body_off + c.body_len <= s.size()) {   // bytes copied within a chunk: one entity's handles / values duplicated onto another's
+            size_t w = 1 + rng.below(std::min<size_t>(8, c.body_len - 1)), o1 = c.body_off + rng.below(c.body_len - w + 1), o2 = c.body_off + rng.below(c.body_len - w + 1);
+            std::string piece = s.substr(o1, w); s.replace(o2, w, piece); d << w << " bytes of " << c.type << " copied from @" << o1 << " to @" << o2; } break;
         default: { size_t L = rng.below(s.size() + 1); s.resize(L); d << "truncate to " << L; break; }
         }
         desc += d.str() + "; ";
@@ -197,7 +200,8 @@ static std::string mutate_ascii(const std::string &orig, Rng &rng, std::string &
         std::ostringstream d;
         std::vector<std::string> tok; { std::istringstream ts(lines[li]); std::string t; while (ts >> t) tok.push_back(t); }
         auto join = [&]() { std::string r; for (size_t k = 0; k < tok.size(); ++k) r += (k ? " " : "") + tok[k]; return r; };
-        switch ((int)rng.below(9)) {
+        switch ((int)rng.below(10)) {
+        case 9: { size_t lj = rng.below(lines.size()); lines[li] = lines[lj]; d << "line " << li << " := copy of line " << lj; break; }
         case 0: d << "line " << li << " dropped"; lines.erase(lines.begin() + li); break;
         case 1: d << "line " << li << " repeated"; lines.insert(lines.begin() + li, lines[li]); break;
         case 2: if (!tok.empty()) { size_t t = rng.below(tok.size()); tok[t] = bad[rng.below(sizeof bad / sizeof *bad)]; lines[li] = join(); d << "line " << li << " token " << t << " := '" << tok[t] << "'"; } break;
@@ -237,10 +241,41 @@ template <class T> static void read_one_ascii(const std::string &data, bool chec
     if (ok) validity_walk(t, tname, bu);
 }
 
+// A file may describe what no sequence of checked API calls produces: coincident faces (the same halfedge loop several
+// times, both orientations) and cells over arbitrary pairs / triples of their halffaces, a halfface possibly used by
+// several cells. All handles are in range; readers must still terminate and stay memory-safe (incidence computation and
+// the re-sorting of halffaces around edges run on it when incidences are requested).
+static std::unique_ptr<XMesh<PolyK>> make_overlapping_mesh(Ctx &ctx, bool ascii) {
+    Rng &rng = ctx.rng;
+    auto m = std::make_unique<XMesh<PolyK>>();
+    m->enable_bottom_up_incidences(false);
+    int nv = 3 + (int)rng.below(3);
+    for (int i = 0; i < nv; ++i) m->add_vertex(Vec3d(i, i % 2, 0));
+    int nloops = 1 + (int)rng.below(2); std::vector<std::vector<HalfEdgeHandle>> loops;
+    for (int l = 0; l < nloops; ++l) { std::vector<HalfEdgeHandle> hes; int k = 3 + (int)rng.below(nv - 2); int off = (int)rng.below(nv);
+        for (int i = 0; i < k; ++i) hes.push_back(m->halfedge_handle(m->add_edge(VertexHandle((off + i) % nv), VertexHandle((off + (i + 1) % k) % nv), l > 0), 0));
+        loops.push_back(hes); }
+    bool stacked = rng.chance(2, 3);   // stacked: coincident, equally oriented sheets with flat cells between the top of one and the bottom of another
+    int nf = (stacked ? 3 : 2) + (int)rng.below(4);
+    for (int f = 0; f < nf; ++f) { auto hes = loops[stacked ? 0 : rng.below(loops.size())];
+        if (!stacked && rng.chance(1, 3)) { std::reverse(hes.begin(), hes.end()); for (auto &h : hes) h = m->opposite_halfedge_handle(h); }
+        std::rotate(hes.begin(), hes.begin() + rng.below(hes.size()), hes.end()); m->add_face(hes, false); }
+    int nc = (stacked ? 2 : 1) + (int)rng.below(5);
+    for (int c = 0; c < nc; ++c) {
+        std::vector<HalfFaceHandle> hfs;
+        if (stacked) { int i = (int)rng.below(nf), j = (int)rng.below(nf); if (i == j) j = (j + 1) % nf; hfs = {HalfFaceHandle(2 * i + 1), HalfFaceHandle(2 * j)}; }
+        else { int k = 2 + (int)rng.below(2); for (int i = 0; i < k; ++i) hfs.emplace_back((int)rng.below(2 * nf)); }
+        m->add_cell(hfs, false); }
+    ctx.cls("c07.base:overlapping-faces-and-cells");
+    add_io_props(*m, ctx, 1 + (int)rng.below(3), ascii);
+    return m;
+}
+
 template <class K> static void c07_case(Ctx &ctx, int nmut) {
     Rng &rng = ctx.rng;
     bool ascii = (ctx.case_no / 5) % 2;
     auto m = make_io_mesh<K>(ctx, 1 + (int)rng.below(5), ascii, false, 9, 4);
+    if constexpr (std::is_same<K, PolyK>::value) { if (ctx.case_no % 5 == 2) m = make_overlapping_mesh(ctx, ascii); }
     auto m2 = make_io_mesh<PolyK>(ctx, 2, ascii, false, 6, 2);
     std::string base, other;
     if (ascii) { IO::FileManager fm; fm.setVerbosityLevel(0); std::ostringstream o1, o2; fm.writeStream(o1, *m); fm.writeStream(o2, *m2); base = o1.str(); other = o2.str(); }
